@@ -52,13 +52,8 @@ Section Assert.
 
   (* Quantity::abs, impl PartialOrd for Quantity (partial_cmp, then `<=`) *)
   Definition qabs (q : quantity (T := T)) : quantity := qnew (n_abs N (q_val q)) (q_unit q).
-  Definition q_partial_cmp (a b : quantity (T := T)) : option comparison :=
-    match convert_to N tbl res keys b (q_unit a) with
-    | Ok b' => n_cmp N (q_val a) (q_val b')
-    | Err _ => None
-    end.
   Definition q_le (a b : quantity (T := T)) : bool :=
-    match q_partial_cmp a b with Some Lt | Some Eq => true | _ => false end.
+    match q_partial_cmp N tbl res keys a b with Some Lt | Some Eq => true | _ => false end.
 
   (* fn assert_eq, three arguments *)
   Definition p_assert_eq3 (l r eps : quantity (T := T)) : flow :=
